@@ -391,6 +391,9 @@ namespace bluetoe
                         break;
                     case opc_read:
                         {
+                            if ( write_size != 1 + 2 * sizeof( std::uint8_t* ) )
+                                return request_error( bluetoe::error_codes::invalid_attribute_value_length );
+
                             error         = error_codes::success;
                             start_address = read_address( value +1 );
                             end_address   = read_address( value +1 + sizeof( std::uint8_t* ) );
